@@ -37,6 +37,7 @@ type hsm struct {
 	otherPriv ed25519.PrivateKey
 	otherPub  ed25519.PublicKey
 	signCalls int
+	pubCalls  int
 	yield     func() // cooperative scheduling: the remote signer takes time, other callers run meanwhile
 }
 
@@ -81,11 +82,19 @@ func (h *hsm) GetPublicKey() (ed25519.PublicKey, error) {
 	case "pubkey-mismatch":
 		h.c.Fault("hsm-publickey-mismatch")
 		return h.otherPub, nil
+	case "pubkey-flaps":
+		// the first answer names another slot's key, every later answer the right one: whatever
+		// key ends up recorded must be one the signature verifies under
+		h.pubCalls++
+		if h.pubCalls == 1 {
+			h.c.Fault("hsm-publickey-first-answer-stale")
+			return h.otherPub, nil
+		}
 	}
 	return h.pub, nil
 }
 
-var hsmFaults = []string{"sign-error", "flip-bit", "other-key", "pubkey-mismatch", "pubkey-error", "truncated-sig", "trailing-bytes"}
+var hsmFaults = []string{"sign-error", "flip-bit", "other-key", "pubkey-mismatch", "pubkey-error", "truncated-sig", "trailing-bytes", "pubkey-flaps"}
 
 func newHSM(c *core.Ctx, label string, allowFault bool) *hsm {
 	i := c.Int(label+".key", 0, 7)
@@ -317,7 +326,7 @@ func TestHistory(t *testing.T) {
 					ownKey[j] = 0
 				}
 				c.Event("signing %d fault=%q -> err=%v stack=%d", i, h.fault, err != nil, len(blk.SignatureStack))
-				signatureBad := h.fault == "sign-error" || h.fault == "flip-bit" || h.fault == "other-key" || h.fault == "pubkey-mismatch" || h.fault == "truncated-sig" || h.fault == "trailing-bytes"
+				signatureBad := h.fault == "sign-error" || h.fault == "flip-bit" || h.fault == "other-key" || h.fault == "pubkey-mismatch" || h.fault == "truncated-sig" || h.fault == "trailing-bytes" || h.fault == "pubkey-flaps"
 				if h.fault != "" {
 					fired = append(fired, h.fault)
 				}
@@ -660,6 +669,22 @@ func TestBundleID(t *testing.T) {
 				if !bytes.Equal(pub, before) {
 					c.Violation("key-modified", "GetWebBundleId", "the public key bytes changed")
 				}
+			}
+			// history: a key store that loads key after key into ONE buffer and asks for each ID
+			if c.Chance("reusedKeyBuffer", 1, 3) {
+				buf := make(ed25519.PublicKey, 32)
+				for i, n := 0, c.Int("reusedKeyBuffer.keys", 2, 4); i < n; i++ {
+					k, _ := fixtures.Ed25519Key(c.Int("reusedKeyBuffer.key", 0, 15))
+					copy(buf, k)
+					var got string
+					if pi := c.Guard("GetWebBundleId", func() { got = webbundleid.GetWebBundleId(buf) }); pi != nil {
+						c.CheckTotal("GetWebBundleId", 32, pi, 0)
+					}
+					if c.Oracle("C07") && got != refib.WebBundleID(k) {
+						c.Violation("wrong-bundle-id", "GetWebBundleId/reused-buffer", "key %d loaded into a reused buffer: got %q, expected %q", i, got, refib.WebBundleID(k))
+					}
+				}
+				c.Probe("keys loaded into one reused buffer")
 			}
 			c.Outcome("nt:ok")
 			c.Sig("%x", before[:2])
